@@ -46,7 +46,6 @@ var preludeOnDemand = []struct{ sym, axiom string }{
 	{"(gorem ", "(assert (forall ((a Int) (b Int)) (! (=> (and (>= a 0) (> b 0)) (= (gorem a b) (mod a b))) :pattern ((gorem a b)))))"},
 }
 
-
 var litRe = regexp.MustCompile(`\|strx?:[^|]*\|`)
 
 func decodeLit(sym string) string {
@@ -199,8 +198,8 @@ var solverCmds = map[string]func(file string, timeout int) []string{
 	"z3-new/as2": func(f string, t int) []string {
 		return []string{"z3-new", fmt.Sprintf("-T:%d", t), "smt.arith.solver=2", f}
 	},
-	"z3":     func(f string, t int) []string { return []string{"z3", fmt.Sprintf("-T:%d", t), f} },
-	"cvc5":   func(f string, t int) []string { return []string{"cvc5", fmt.Sprintf("--tlimit=%d", t*1000), f} },
+	"z3":   func(f string, t int) []string { return []string{"z3", fmt.Sprintf("-T:%d", t), f} },
+	"cvc5": func(f string, t int) []string { return []string{"cvc5", fmt.Sprintf("--tlimit=%d", t*1000), f} },
 }
 
 func runSolver(name, file string, timeout int) SolverResult {
